@@ -2,7 +2,7 @@
    signature so that a single small OCaml driver (or a generated cases.v) can run
    them:  dispatch id scalars coords indices : option (list Q). *)
 From Coq Require Import List ZArith QArith Bool.
-Require Import Cox.Num.Ops Cox.Geo.Vec Cox.Model.Mesh Cox.Model.Polygon Cox.Model.Inside Cox.Model.Curved Cox.Model.Structure Cox.Model.Balls Cox.Model.Simple Cox.Model.Roundtrip Cox.Model.MeshIO Cox.Model.Families Cox.Num.Qsqrt5 Cox.Gen.Planes.
+Require Import Cox.Num.Ops Cox.Geo.Vec Cox.Model.Mesh Cox.Model.Polygon Cox.Model.Inside Cox.Model.Sphero Cox.Model.Curved Cox.Model.Structure Cox.Model.Balls Cox.Model.Simple Cox.Model.Roundtrip Cox.Model.MeshIO Cox.Model.Families Cox.Num.Qsqrt5 Cox.Gen.Planes.
 Import ListNotations.
 
 Fixpoint group3 (l : list Q) : list (vec3 Q) :=
@@ -125,6 +125,17 @@ Section Entries.
   Definition e_dist2_mesh (sc qs : list Q) (idx : list (list nat)) : list Q :=
     let V := group3 qs in let TT := resolve O V (map tri_of idx) in
     map (fun p => surface_dist2 O p TT) (group3 sc).
+
+  (* 26: ConvexSpheropolyhedron.is_inside as the code decides it. sc = r^2 :: points, qs = vertices, idx = faces (ccw from outside):
+        per point [accepted; in the core; number of faces looked at] *)
+  Definition e_sphero_inside (sc qs : list Q) (idx : list (list nat)) : list Q :=
+    let V := group3 qs in let Fs := map (fun f => map (getv O V) f) idx in
+    match sc with
+    | [] => []
+    | r2 :: pts =>
+      flat_map (fun p => [b2q (sphero_inside O r2 Fs p); b2q (in_core O Fs p);
+                          z2q (Z.of_nat (length (filter (fun F => to_check O r2 F p) Fs)))]) (group3 pts)
+    end.
 
   (* 24: ellipsoid/sphere containment. sc = [c(3); s(3)] ++ points *)
   Definition e_inside_ellipsoid (sc : list Q) : list Q :=
@@ -260,6 +271,7 @@ Definition dispatch (f : nat) (sc qs : list Q) (idx : list (list nat)) : option 
   | 22 => Some (e_winding3 sc qs idx)
   | 23 => Some (e_dist2_mesh sc qs idx)
   | 24 => Some (e_inside_ellipsoid sc)
+  | 26 => Some (e_sphero_inside sc qs idx)
   | 25 => Some (e_ellipse sc)
   | 30 => Some (e_curved sc)
   | 40 => Some (e_structure qs idx)
